@@ -247,6 +247,18 @@ def _bind(model, caller: FuncInfo, call: ast.Call, h: FuncInfo, targets=()):
                 return None
             bound[p] = defaults[p]
     assigned = set(h.local_names())
+    # comprehension variables are scoped to their comprehension: no clash with the caller's names
+    comp_only = set()
+    for comp in [x for x in ast.walk(h.node) if isinstance(x, ast.comprehension)]:
+        comp_only |= {y.id for y in ast.walk(comp.target) if isinstance(y, ast.Name)}
+    stored_outside = set()
+    for x in walk_scope(h.node):
+        if isinstance(x, (ast.Assign, ast.AugAssign, ast.AnnAssign, ast.For, ast.With, ast.NamedExpr)):
+            tg = x.targets if isinstance(x, ast.Assign) else [getattr(x, "target", None)] if not isinstance(x, ast.With) else [i.optional_vars for i in x.items]
+            for t_ in tg:
+                if t_ is not None:
+                    stored_outside |= {y.id for y in ast.walk(t_) if isinstance(y, ast.Name)}
+    assigned -= (comp_only - stored_outside)
     caller_names = {x.id for x in ast.walk(caller.node) if isinstance(x, ast.Name)} | set(caller.params)
     _counter[0] += 1
     tag = f"__i{_counter[0]}"
